@@ -35,11 +35,11 @@ type Outcome struct {
 	// TooLarge: the program computes a string repetition beyond the bound
 	// (excluded by the properties: its legitimate result would exhaust memory).
 	TooLarge bool
-	Output      string
-	Blocks      []*RBlock
-	Binding     *RBinding
-	Warnings    []Warning
-	Err         *RTErr
+	Output   string
+	Blocks   []*RBlock
+	Binding  *RBinding
+	Warnings []Warning
+	Err      *RTErr
 	// LiveAtPrint: number of live variables at each executed print statement.
 	LiveAtPrint []int
 	// observation counters for evidence
@@ -49,6 +49,7 @@ type Outcome struct {
 type unspec struct{ why string }
 
 const tooLarge = "repeat result too large"
+
 type rtPanic struct{ e *RTErr }
 
 type scope struct {
